@@ -33,3 +33,12 @@ def check(ctx):
     ctx.floor("G0", "struct shapes validated", n, 14 if ctx.tier == "quick" else 120)
     ctx.notes.append("not decided: shapes outside the generated family (generic structs are unsupported by the macro)")
     ctx.assumptions.append("the family description in witness/gen.py (which fields are animated, remote layout)")
+
+
+def controls(ctx, F):
+    from rules import c08
+    s = c08.control_shape(F)
+    D.rule_update(ctx, s, "G4", "G5", "G5")
+    D.rule_start_with(ctx, s, "G6")
+    return [("G5", "writes-unanimated-field", "hand-written update that overwrites a field which is not animated"),
+            ("G6", "start-with-wrong", "hand-written start_with that skips a field")]
